@@ -196,10 +196,32 @@ func genStream(r *hlib.Rand) []byte {
 
 var connBudget = 6
 
+// frames that parse but carry no command: handleConn must skip every one of them
+var zeroFrames = []string{"*0\r\n", "*-1\r\n", "\r\n", " \r\n", "\t \r\n", "  \t\r\n", "*-5\r\n", "*+0\r\n", "*00\r\n",
+	"\r\r\n", "\v\f\r\n", "\xc2\xa0\r\n", "\xe2\x80\x83 \r\n", "*-9223372036854775808\r\n"}
+
+func genZero(r *hlib.Rand) string {
+	var b []byte
+	// always at least one empty non-nil frame (`*0` or a white-space-only line)
+	b = append(b, hlib.Pick(r, []string{"*0\r\n", " \r\n", "\t \r\n", "*00\r\n"})...)
+	for i, n := 0, r.Intn(5); i < n; i++ {
+		f := hlib.Pick(r, zeroFrames)
+		if r.Bool() {
+			b = append(b, f...)
+		} else {
+			b = append([]byte(f), b...)
+		}
+	}
+	return "zero " + hlib.Hex(b)
+}
+
 func genC31(r *hlib.Rand, tier string) []string {
 	var ops []string
 	for i, n := 0, 1+r.Intn(3); i < n; i++ {
 		ops = append(ops, "parse "+hlib.Hex(genStream(r)))
+	}
+	if r.Bool() {
+		ops = append(ops, genZero(r))
 	}
 	// a few streams also go to the real server over TCP (does the process survive?)
 	if connBudget > 0 && r.Chance(4) {
